@@ -19,7 +19,7 @@ THEOREMS = [_T + n for n in [
     "C17_crop_bounds", "C17_extend_plan", "C17_extend_exact", "C17_width_keeps", "C17_crop_window",
     "C17_step_options", "C17_extend_closed", "C17_crop_closed", "C17_width_closed", "C17_step_closed",
     "C17_history_on_lattice", "C17_extend_twice", "C17_positional_binding", "C17_crop_positional", "C17_extend_positional",
-    "C17_width_positional", "C17_step_positional", "C17_session_pointwise", "C17_session_replay"]]
+    "C17_width_positional", "C17_step_positional", "C17_session_pointwise", "C17_session_replay", "C17_truthful_attribute"]]
 LEVEL_TEXT = ("Lean theorems over the rational model of crop_dim (exactly the samples in the requested interval when no "
               "coordinate lies within eps of an open end), extend_dim (the whole result = filled samples on the lattice points "
               "below, the array itself, filled samples on the lattice points above; exactly the lattice points inside the "
@@ -39,7 +39,9 @@ LEVEL_TEXT = ("Lean theorems over the rational model of crop_dim (exactly the sa
               "the optional arguments - k leading ones positionally in the documented order, the rest by keyword - is proved to "
               "bind each parameter to the value meant for it, and every such call style is run against the real code. Sessions "
               "(consecutive independent calls in one process on fresh, reused-and-changed and caller-edited objects) are judged "
-              "call by call: the session model is proved pointwise and replay-stable.")
+              "call by call: the session model is proved pointwise and replay-stable. Library-produced inputs: an array on a "
+              "regular lattice whose step attribute is truthful is proved to be treated exactly like the array without the "
+              "attribute, so arrays produced by other library functions are judged by the lattice of their coordinates.")
 LEVEL_NOTE = ("Unmodelled: binary64 rounding of numpy arange with a fractional step and of `end + k * step` (probed on the "
               "real code by the free-mode monitors with steps 0.01, 1/3, 0.004, 1/44100: length, data on coordinates, "
               "coordinates within 2^-40 of the lattice); xarray sel / reindex are modelled as label slice / label lookup. "
@@ -50,7 +52,10 @@ LEVEL_NOTE = ("Unmodelled: binary64 rounding of numpy arange with a fractional s
               "of building the array, 3 dimension names, 4 layouts, float32 / int64 axes, numpy scalar arguments), option "
               "products, tolerance-sized offsets around every comparison and size thresholds (16 .. 1025 samples) are "
               "generator-bounded correspondence on dyadic axes; every lattice point of a few non-dyadic axes is swept by the "
-              "free-mode monitors.")
+              "free-mode monitors. Data types (int16 / int32 / int64 / bool / float32 / float64) x fill values (integral, "
+              "fractional, NaN, +-inf) and arrays produced by other library functions (create_*_range, *_dim_from_array, "
+              "set_dim_attrs, resize, C17's own functions; premise monitor: a step attribute agrees with the coordinates) are "
+              "generator-bounded correspondence as well: the theorems are generic in the cell type, the model has no data type.")
 TECHNIQUE = ("Lean 4 proof over model; symbolic-trace equality obligations for the crop_dim / extend_dim kernels; table "
              "obligations for the signature defaults and the positional order of the seven public signatures; exact "
              "differential correspondence on dyadic axes (single calls in every call style, chained histories, sessions of "
@@ -65,6 +70,9 @@ RULE = ("dyadic axes of 1-40 points x every width 1..2n+3 x three positions x st
         "of 3-5 independent calls (x, a neighbour of x, x again) with reused-and-changed arrays (in place, shallow / "
         "deep copy, assign_coords), poisoned results, arguments snapshotted (values, coordinates, attributes) and "
         "earlier results read again; every coordinate / lattice point of non-dyadic axes (steps 0.01, 0.1, 1/3, 0.29); "
+        "data types int16 / int32 / int64 / bool / float32 / float64 x fill values 0, -9, 77, 1/2, -9/4, 1e-3, NaN, +-inf x every "
+        "filling and non-filling function; 13 first producers (library constructors) x resize to 6 sizes / C17's own functions "
+        "as producers x the function under test, on dyadic (exact) and decimal (free-mode) axes; "
         "non-trivial = the implementation returned an array; distinct = distinct (operation, input)")
 TRUSTED = ["the documented parameter order written down in harness/c17_calls.py DOCUMENTED (it must agree with the model's "
            "tables: any disagreement shows as a mismatch on the unchanged tree)",
@@ -76,7 +84,13 @@ ASSUMPTIONS = ["binary64 arithmetic is exact on the dyadic axes used for the exa
                "free-mode monitors: requested ends are nominal lattice points or half-way between two; the expected "
                "number of samples is the nominal count"]
 NOT_COMPARED = ["error messages (only the error class)", "`start` / `stop` attributes written by extend_dim",
-                "dtype of the data (an integer array may come back as float; cell values are compared)",
+                "dtype of the data (an integer array may come back as float; cell values are compared numerically: a new "
+                "sample must hold the fill value, an original sample its value)",
+                "float32 data with a fill value float32 cannot hold (1e-3): the new samples hold the fill value rounded to "
+                "single precision, a representation effect the property does not speak about - not generated",
+                "what ops.resize and the create_* / *_dim_from_array / set_dim_attrs constructors return (not C17's functions): "
+                "their output is read back and taken as the input; an untruthful step attribute they leave is tallied and noted, "
+                "and the C17 call on it is judged against the lattice of the coordinates",
                 "extension of a one-point axis that has no step attribute (the estimated step is NaN)",
                 "adjust_dim_range (not part of the property; its signature is not in the table obligation either)",
                 "whether a result is a view or a copy of its argument (crop_dim returns xarray views, adjust_dim_width with "
@@ -1319,6 +1333,7 @@ def _extend_cases(ctx, n_axes):
                             b["lc"] = b["rc"] = None
                             b["data"] = _cells(rng, n, _ncols(b["layout"]), 0)
                             b.pop("int_data", None)
+                            b.pop("data_dtype", None)
                         yield b
         # not containing the axis, reversed: extend_dim does not crop
         b = _base(rng, coords, step)
